@@ -50,6 +50,7 @@ inductive Step where
   | checkFlatNonEmpty
   | checkOrder
   | removeLink
+  | checkText
   | convertIf (gs : List Guard)
   | takeShape
   | resizeOrCreate
@@ -159,6 +160,9 @@ def step (m : M) : Step → M × Option Nix.Err
     --  on the values the correspondence offers, and the step never touches the file)
     if m.x.rank == 0 then (m, some .valueError)
     else if descends (m.x.elems.map (·.val)) then (m, some .valueError) else (m, none)
+  | .checkText =>                -- the `elif` of the float conversion in `write_data`: text with an embedded NUL
+    -- (`typeOk` of an element offered as text: a `str` h5py can store; anything that is not a `str` passes this test)
+    if m.dt == some .string && !m.converted && !(m.x.elems.all (·.typeOk)) then (m, some .valueError) else (m, none)
   | .removeLink => ({ m with file := { m.file with link := false } }, none)   -- `if self.has_link: self.remove_link()`
   | .convertIf gs =>
     if gs.all (guardHolds m) then
